@@ -338,7 +338,7 @@ theorem evPair_good {cfg : Cfg} {P : IcSpec} {a b : Nat} {A B : Bytes} {ev : Ev}
     (hnp : ∀ w, ev.action ≠ .panic w) :
     evRouted ev b A = (evServed ev a A B).map (fwdEnv cfg) := by
   obtain ⟨ic, nn, t, hP, hact⟩ := hev.ic
-  rcases route_cases cfg (fun _ => ic) nn ev.srcName ev.recv with
+  rcases route_cases cfg (fun _ => ic) (nnEff cfg nn) ev.srcName ev.recv with
     ⟨hroute, hbad⟩ | ⟨h, hh, hs, hic, hroute⟩ | ⟨h, h1, hh, hs, hic, hroute⟩
   · -- no header / wrong source: ignored
     have hns : ∀ d e', ¬ ev.action.sentTo d e' := by
@@ -378,7 +378,7 @@ theorem evPair_good {cfg : Cfg} {P : IcSpec} {a b : Nat} {A B : Bytes} {ev : Ev}
       rw [this] at hic; simp at hic
     · rfl
   · -- passed on
-    have hne : ¬ (nn = true ∧ h1.next = []) := by
+    have hne : ¬ (nnEff cfg nn = true ∧ h1.next = []) := by
       intro hc
       rw [if_pos hc] at hroute
       have : ev.action = .panic .emptyNext := by
